@@ -424,7 +424,8 @@ ASSUME = ['NaN/inf floats, user classes with custom __eq__/__hash__/__bool__, ca
 
 def main(argv):
     return run_check('C05', [OpsStream(), RegexStream(), IpStream(), RulesStream(), RuleSequenceStream()], argv,
-                     trusted_base=TRUSTED, assumptions=ASSUME)
+                     trusted_base=TRUSTED, assumptions=ASSUME,
+                     translated=('pin_rules',))
 
 
 if __name__ == '__main__':
